@@ -142,7 +142,12 @@ def call_cases():
 
 NAMES = ['a', 'fn', 'ctx', 'args', 'kwargs', 'value', 'b']
 KINDS = ['none', 'default', 'factory']
-DEFAULTS = {'default': 5, 'factory': [5]}
+DEFAULTS = {'default': (5, 'x'), 'factory': [5]}
+
+
+def fresh_default(kind):
+    """An equal but not identical object (so that `is` instead of `==` is visible)."""
+    return tuple([5, 'x']) if kind == 'default' else [5]
 
 
 def field_defs(maxf):
@@ -169,7 +174,7 @@ def mk_dataclass(fields, variant, idx):
         if kind == 'none':
             ns[name] = dataclasses.field(repr=rp)
         elif kind == 'default':
-            ns[name] = dataclasses.field(default=5, repr=rp)
+            ns[name] = dataclasses.field(default=DEFAULTS['default'], repr=rp)
         else:
             ns[name] = dataclasses.field(default_factory=lambda: [5], repr=rp)
     ns['__annotations__'] = ann
@@ -188,7 +193,7 @@ def mk_attrs(fields, variant, idx):
         if kind == 'none':
             ns[name] = attr.ib(repr=rp)
         elif kind == 'default':
-            ns[name] = attr.ib(default=5, repr=rp)
+            ns[name] = attr.ib(default=DEFAULTS['default'], repr=rp)
         else:
             ns[name] = attr.ib(factory=lambda: [5], repr=rp)
     kw = {'frozen': True, 'slots': False} if variant == 'frozen' else {'slots': True} if variant == 'slots' else {'slots': False}
@@ -218,7 +223,7 @@ def check_class(lib, mk, fields, variant, idx, part, widths):
     for choice in itertools.product((0, 1), repeat=len(fields)):
         kwargs = {}
         for (name, kind, rp), c in zip(fields, choice):
-            kwargs[name] = (DEFAULTS[kind] if kind != 'none' else 7) if c == 0 else [8]
+            kwargs[name] = (fresh_default(kind) if kind != 'none' else 7) if c == 0 else [8]
         inst = cls(**kwargs)
         exp = [name for (name, kind, rp) in fields if rp and (kind == 'none' or kwargs[name] != DEFAULTS[kind])]
         hidden_ok = all(rp or (kind != 'none' and kwargs[name] == DEFAULTS[kind]) for (name, kind, rp) in fields)
